@@ -12,15 +12,18 @@ EXTENDS Integers, Sequences, TLC, Json
 
 CONSTANTS MaxLen      \* number of accesses in a history
 
-VARIABLES dim, arr, arr0, hist, last
-vars == <<dim, arr, arr0, hist, last>>
+VARIABLES dim, arr, brr, arr0, hist, last
+vars == <<dim, arr, brr, arr0, hist, last>>
 
-\* initial contents: 1-D arrays of length 1..3, and one 2x2 array; cell values are distinct
+\* initial contents: 1-D arrays of length 1..3 (next to a second 1-D array B of length 2, so that one index object can be
+\* used on arrays of different lengths), a 2x2 and a non-square 3x2 array; cell values are distinct
 Init1 == {<<1>>, <<1, 2>>, <<1, 2, 3>>}
-Init2 == {<< <<1, 2>>, <<3, 4>> >>}
+Init2 == {<< <<1, 2>>, <<3, 4>> >>, << <<1, 2>>, <<3, 4>>, <<5, 6>> >>}
+BInit == <<5, 6>>
 
 Init == /\ \/ (dim = 1 /\ arr \in Init1)
            \/ (dim = 2 /\ arr \in Init2)
+        /\ brr = BInit
         /\ arr0 = arr
         /\ hist = <<>> /\ last = [out |-> "ok", ret |-> <<>>]
 
@@ -31,47 +34,75 @@ Kinds == {"s", "p"}
 Valid(i, k, n) == IF k = "s" THEN i >= 0 /\ i < n ELSE i >= -n /\ i < n
 Pos(i, n) == IF i < 0 THEN i + n + 1 ELSE i + 1
 
+\* index OBJECTS: re = "n" a fresh index object; "p" the secret index object of the previous access is used again (same
+\* value, necessarily); "d" (two-dimensional accesses) the column index is the very object used as row index.  Reuse
+\* changes nothing in the contract -- it is a dimension of the generator, the code must not care.
+Reuses == {"n", "p", "d"}
+ReOk(re, i, ik, j, jk) ==
+    CASE re = "n" -> TRUE
+      [] re = "p" -> ik = "s" /\ hist # <<>> /\ hist[Len(hist)].ik = "s" /\ hist[Len(hist)].i = i /\ hist[Len(hist)].a # "copyrow"
+      [] re = "d" -> ik = "s" /\ jk = "s" /\ i = j
+
 Log(a) == hist' = Append(hist, a) /\ arr0' = arr0
-Rec(a, i, ik, j, jk, v) == [a |-> a, i |-> i, ik |-> ik, j |-> j, jk |-> jk, v |-> v]
+Rec(a, i, ik, j, jk, v, re) == [a |-> a, i |-> i, ik |-> ik, j |-> j, jk |-> jk, v |-> v, re |-> re]
 Ok(r) == [out |-> "ok", ret |-> r]
 Raise == [out |-> "raise", ret |-> <<>>]
 
 \* ---- one-dimensional
-Get1(i, ik) == /\ dim = 1 /\ dim' = dim /\ arr' = arr
-               /\ last' = IF Valid(i, ik, Len(arr)) THEN Ok(<<arr[Pos(i, Len(arr))]>>) ELSE Raise
-               /\ Log(Rec("get", i, ik, 0, "p", 0))
+Get1(i, ik, re) ==
+    /\ dim = 1 /\ dim' = dim /\ arr' = arr /\ brr' = brr /\ re # "d" /\ ReOk(re, i, ik, 0, "p")
+    /\ last' = IF Valid(i, ik, Len(arr)) THEN Ok(<<arr[Pos(i, Len(arr))]>>) ELSE Raise
+    /\ Log(Rec("get", i, ik, 0, "p", 0, re))
 
-Set1(i, ik, v) == /\ dim = 1 /\ dim' = dim
-                  /\ arr' = IF Valid(i, ik, Len(arr)) THEN [arr EXCEPT ![Pos(i, Len(arr))] = v] ELSE arr
-                  /\ last' = IF Valid(i, ik, Len(arr)) THEN Ok(<<>>) ELSE Raise
-                  /\ Log(Rec("set", i, ik, 0, "p", v))
+Set1(i, ik, v, re) ==
+    /\ dim = 1 /\ dim' = dim /\ brr' = brr /\ re # "d" /\ ReOk(re, i, ik, 0, "p")
+    /\ arr' = IF Valid(i, ik, Len(arr)) THEN [arr EXCEPT ![Pos(i, Len(arr))] = v] ELSE arr
+    /\ last' = IF Valid(i, ik, Len(arr)) THEN Ok(<<>>) ELSE Raise
+    /\ Log(Rec("set", i, ik, 0, "p", v, re))
+
+\* the second array B (in one-dimensional histories)
+GetB(i, ik, re) ==
+    /\ dim = 1 /\ dim' = dim /\ arr' = arr /\ brr' = brr /\ re # "d" /\ ReOk(re, i, ik, 0, "p")
+    /\ last' = IF Valid(i, ik, Len(brr)) THEN Ok(<<brr[Pos(i, Len(brr))]>>) ELSE Raise
+    /\ Log(Rec("getb", i, ik, 0, "p", 0, re))
+
+SetB(i, ik, v, re) ==
+    /\ dim = 1 /\ dim' = dim /\ arr' = arr /\ re # "d" /\ ReOk(re, i, ik, 0, "p")
+    /\ brr' = IF Valid(i, ik, Len(brr)) THEN [brr EXCEPT ![Pos(i, Len(brr))] = v] ELSE brr
+    /\ last' = IF Valid(i, ik, Len(brr)) THEN Ok(<<>>) ELSE Raise
+    /\ Log(Rec("setb", i, ik, 0, "p", v, re))
 
 \* ---- two-dimensional: a[i, j], reading a whole row a[i], storing a row read at src to the public row dst
 Valid2(i, ik, j, jk) == Valid(i, ik, Len(arr)) /\ Valid(j, jk, Len(arr[1]))
 
-Get2(i, ik, j, jk) == /\ dim = 2 /\ dim' = dim /\ arr' = arr
-                      /\ last' = IF Valid2(i, ik, j, jk) THEN Ok(<<arr[Pos(i, Len(arr))][Pos(j, Len(arr[1]))]>>) ELSE Raise
-                      /\ Log(Rec("get2", i, ik, j, jk, 0))
+Get2(i, ik, j, jk, re) ==
+    /\ dim = 2 /\ dim' = dim /\ arr' = arr /\ brr' = brr /\ ReOk(re, i, ik, j, jk)
+    /\ last' = IF Valid2(i, ik, j, jk) THEN Ok(<<arr[Pos(i, Len(arr))][Pos(j, Len(arr[1]))]>>) ELSE Raise
+    /\ Log(Rec("get2", i, ik, j, jk, 0, re))
 
-GetRow(i, ik) == /\ dim = 2 /\ dim' = dim /\ arr' = arr
-                 /\ last' = IF Valid(i, ik, Len(arr)) THEN Ok(arr[Pos(i, Len(arr))]) ELSE Raise
-                 /\ Log(Rec("getrow", i, ik, 0, "p", 0))
+GetRow(i, ik, re) ==
+    /\ dim = 2 /\ dim' = dim /\ arr' = arr /\ brr' = brr /\ re # "d" /\ ReOk(re, i, ik, 0, "p")
+    /\ last' = IF Valid(i, ik, Len(arr)) THEN Ok(arr[Pos(i, Len(arr))]) ELSE Raise
+    /\ Log(Rec("getrow", i, ik, 0, "p", 0, re))
 
-Set2(i, ik, j, jk, v) == /\ dim = 2 /\ dim' = dim
-                         /\ arr' = IF Valid2(i, ik, j, jk) THEN [arr EXCEPT ![Pos(i, Len(arr))][Pos(j, Len(arr[1]))] = v] ELSE arr
-                         /\ last' = IF Valid2(i, ik, j, jk) THEN Ok(<<>>) ELSE Raise
-                         /\ Log(Rec("set2", i, ik, j, jk, v))
+Set2(i, ik, j, jk, v, re) ==
+    /\ dim = 2 /\ dim' = dim /\ brr' = brr /\ ReOk(re, i, ik, j, jk)
+    /\ arr' = IF Valid2(i, ik, j, jk) THEN [arr EXCEPT ![Pos(i, Len(arr))][Pos(j, Len(arr[1]))] = v] ELSE arr
+    /\ last' = IF Valid2(i, ik, j, jk) THEN Ok(<<>>) ELSE Raise
+    /\ Log(Rec("set2", i, ik, j, jk, v, re))
 
 \* m[dst] = m[src]  (dst public and valid; src of kind sk): the whole row is replaced by a copy of the source row
-CopyRow(dst, src, sk) == /\ dim = 2 /\ dim' = dim /\ dst \in 0..(Len(arr) - 1)
-                         /\ arr' = IF Valid(src, sk, Len(arr)) THEN [arr EXCEPT ![dst + 1] = arr[Pos(src, Len(arr))]] ELSE arr
-                         /\ last' = IF Valid(src, sk, Len(arr)) THEN Ok(<<>>) ELSE Raise
-                         /\ Log(Rec("copyrow", dst, "p", src, sk, 0))
+CopyRow(dst, src, sk) ==
+    /\ dim = 2 /\ dim' = dim /\ dst \in 0..(Len(arr) - 1) /\ brr' = brr
+    /\ arr' = IF Valid(src, sk, Len(arr)) THEN [arr EXCEPT ![dst + 1] = arr[Pos(src, Len(arr))]] ELSE arr
+    /\ last' = IF Valid(src, sk, Len(arr)) THEN Ok(<<>>) ELSE Raise
+    /\ Log(Rec("copyrow", dst, "p", src, sk, 0, "n"))
 
-Step == \/ \E i \in -1..3, k \in Kinds : Get1(i, k) \/ GetRow(i, k)
-        \/ \E i \in -1..3, k \in Kinds, v \in Vals : Set1(i, k, v)
-        \/ \E i \in -1..2, j \in -1..2, ik \in Kinds, jk \in Kinds : Get2(i, ik, j, jk)
-        \/ \E i \in -1..2, j \in -1..2, ik \in Kinds, jk \in Kinds : Set2(i, ik, j, jk, 7)
+Step == \/ \E i \in -1..3, k \in Kinds, re \in Reuses : Get1(i, k, re) \/ GetRow(i, k, re) \/ GetB(i, k, re)
+        \/ \E i \in -1..3, k \in Kinds, v \in Vals, re \in Reuses : Set1(i, k, v, re)
+        \/ \E i \in -1..3, k \in Kinds, re \in Reuses : SetB(i, k, 7, re)
+        \/ \E i \in -1..3, j \in -1..2, ik \in Kinds, jk \in Kinds, re \in Reuses : Get2(i, ik, j, jk, re)
+        \/ \E i \in -1..3, j \in -1..2, ik \in Kinds, jk \in Kinds, re \in Reuses : Set2(i, ik, j, jk, 7, re)
         \* (a row read at a PUBLIC position is the row object itself -- Python aliasing, not modelled; a row read at a
         \*  secret position is a fresh selection of values)
         \/ \E d \in 0..1, s \in -1..2 : CopyRow(d, s, "s")
@@ -85,7 +116,8 @@ Flat(s) == IF s = <<>> THEN <<>> ELSE (IF dim = 1 THEN <<Head(s)>> ELSE Head(s))
 
 DiffCount(s, t) == LET n == Len(s) IN IF n # Len(t) THEN 99 ELSE
                    LET D == {k \in 1..n : s[k] # t[k]} IN IF D = {} THEN 0 ELSE IF \E k \in D : D = {k} THEN 1 ELSE 2
-WriteOne == [][(hist' # hist /\ hist'[Len(hist')].a # "copyrow") => DiffCount(Flat(arr), Flat(arr')) <= 1]_vars
+Cells == Flat(arr) \o (IF dim = 1 THEN brr ELSE <<>>)
+WriteOne == [][(hist' # hist /\ hist'[Len(hist')].a # "copyrow") => DiffCount(Flat(arr) \o brr, Flat(arr') \o brr') <= 1]_vars
 
 \* generator: every history of exactly MaxLen accesses, with the initial array, once
 Emit == (Len(hist) = MaxLen) => PrintT(<<"BEH", ToJson([dim |-> dim, arr0 |-> arr0, hist |-> hist])>>)
